@@ -115,7 +115,7 @@ func CallsArg(fn *ssa.Function, name, callee string, k int, argRe string) Ev {
 // StoresTo selects stores in fn to struct field "pkg.Type.Field".
 func StoresTo(fn *ssa.Function, name, field string) Ev {
 	ev := Ev{Name: name, Fn: fn}
-	for _, b := range fn.Blocks {
+	for _, b := range blocksIP(fn) {
 		for _, in := range b.Instrs {
 			if st, ok := in.(*ssa.Store); ok {
 				if fa, ok := st.Addr.(*ssa.FieldAddr); ok && fieldKey(fa.X.Type(), fa.Field) == field {
